@@ -24,13 +24,15 @@ open SkNet.Connectivity
     `False` demands a symmetric matrix, `None` infers `not is_symmetric(adjacency)` -/
 def resolveDirected (m : Mat) (directed : Option Bool) : Except PyErr Bool :=
   match directed with
-  | some false => do
-      let s ← m.isSymmetric
-      if s then pure false else throw .valueError
-  | some true => pure true
-  | none => do
-      let s ← m.isSymmetric
-      pure (!s)
+  | some true => .ok true
+  | some false =>
+    match m.isSymmetric with
+    | .error e => .error e
+    | .ok s => if s then .ok false else .error .valueError
+  | none =>
+    match m.isSymmetric with
+    | .error e => .error e
+    | .ok s => .ok (!s)
 
 /-- `(adjacency.diagonal() > 0)` -/
 def selfLoops (m : Mat) : List Nat := (List.range m.nRow).filter fun i => decide (0 < m.val i i)
@@ -39,15 +41,17 @@ def selfLoops (m : Mat) : List Nat := (List.range m.nRow).filter fun i => decide
 
 /-- `is_acyclic(adjacency, directed)`; `nCC directed` is what
     `connected_components(adjacency, directed, connection='strong', return_labels=False)` returned -/
-def isAcyclic (nCC : Bool → Nat) (m : Mat) (directed : Option Bool) : Except PyErr Bool := do
-  let directed ← resolveDirected m directed
-  if (selfLoops m).length > 0 then pure false
-  else
-    let nNodes := m.nRow
-    if directed then pure (nCC directed == nNodes)
+def isAcyclic (nCC : Bool → Nat) (m : Mat) (directed : Option Bool) : Except PyErr Bool :=
+  match resolveDirected m directed with
+  | .error e => .error e
+  | .ok directed =>
+    if (selfLoops m).length > 0 then .ok false
     else
-      let nEdges := m.nnz / 2
-      pure ((nCC directed : Int) == (nNodes : Int) - (nEdges : Int))
+      let nNodes := m.nRow
+      if directed then .ok (nCC directed == nNodes)
+      else
+        let nEdges := m.nnz / 2
+        .ok ((nCC directed : Int) == (nNodes : Int) - (nEdges : Int))
 
 /-! ### get_cycles -/
 
@@ -125,20 +129,22 @@ def cyclesFuel (m : Mat) : Nat :=
 /-- `get_cycles(adjacency, directed)`; `nCC`/`labels` are scipy's answer for the resolved flag.
     `none` inside = out of fuel. -/
 def getCyclesWith (fuel : Nat) (nCC : Bool → Nat) (labels : Bool → List Nat) (m : Mat) (directed : Option Bool) :
-    Except PyErr (Option (List (List Nat))) := do
-  let directed ← resolveDirected m directed
-  let cycles0 := (selfLoops m).map fun v => [v]
-  let nNodes := m.nRow
-  if directed && nCC directed == nNodes then pure (some cycles0)
-  else if !directed && (nCC directed : Int) == (nNodes : Int) - ((m.nnz / 2 : Nat) : Int) then pure (some cycles0)
-  else
-    let ccLabels := labels directed
-    let uniq := npUnique ccLabels
-    let uniq := if directed then uniq.filter fun v => ccLabels.count v > 1 else uniq
-    let starts := uniq.map (firstOfLabel ccLabels)
-    match cyclesFromStarts m.adj directed fuel starts cycles0 with
-    | none => pure none
-    | some cycles => pure (some (dedupCycles directed cycles ([], [])))
+    Except PyErr (Option (List (List Nat))) :=
+  match resolveDirected m directed with
+  | .error e => .error e
+  | .ok directed =>
+    let cycles0 := (selfLoops m).map fun v => [v]
+    let nNodes := m.nRow
+    if directed && nCC directed == nNodes then .ok (some cycles0)
+    else if !directed && (nCC directed : Int) == (nNodes : Int) - ((m.nnz / 2 : Nat) : Int) then .ok (some cycles0)
+    else
+      let ccLabels := labels directed
+      let uniq := npUnique ccLabels
+      let uniq := if directed then uniq.filter fun v => ccLabels.count v > 1 else uniq
+      let starts := uniq.map (firstOfLabel ccLabels)
+      match cyclesFromStarts m.adj directed fuel starts cycles0 with
+      | none => .ok none
+      | some cycles => .ok (some (dedupCycles directed cycles ([], [])))
 
 def getCycles (nCC : Bool → Nat) (labels : Bool → List Nat) (m : Mat) (directed : Option Bool) :
     Except PyErr (Option (List (List Nat))) :=
@@ -248,43 +254,62 @@ structure BreakExt where
   labelsNoLoop : Bool → List Nat
   setOrder : List Nat → List Nat
 
+/-- break self-loops: `csr_matrix(tril(adjacency, -1) + triu(adjacency, 1))`; the rows come out sorted -/
+def noLoopRows (m : Mat) : Rows := tab m.nRow fun i => sortNat ((m.adj i).filter (· != i))
+
+/-- `get_distances(adjacency, source=root)` on the adjacency without self-loops (model of property C10) -/
+def distancesFrom (m : Mat) (a0 : Rows) (root : List Nat) : Except PyErr (Option (List Int)) :=
+  match SkNet.Path.getDistances m.nRow m.nRow (fun i j => a0.has i j) { source := some root } with
+  | .error .valueError => .error .valueError
+  | .error .indexError => .error .indexError
+  | .error .typeError => .error .typeError
+  | .ok (some (.single d)) => .ok (some d)
+  | .ok _ => .ok none
+
+/-- the directed branch -/
+def breakDirected (fuel : Nat) (ext : BreakExt) (m : Mat) (root : List Nat) : Except PyErr BreakOut :=
+  let a0 := noLoopRows m
+  let ccLabels := ext.labelsNoLoop true
+  let cycleLabels := (npUnique ccLabels).filter fun v => ccLabels.count v > 1
+  match distancesFrom m a0 root with
+  | .error e => .error e
+  | .ok none => .ok .fuel
+  | .ok (some d) =>
+    match breakLabels ext.setOrder ccLabels d fuel cycleLabels a0 with
+    | none => .ok .fuel
+    | some a => .ok (.rows a)
+
+/-- the undirected branch: from the roots, then from the first node of every connected component -/
+def breakUndirected (fuel : Nat) (ext : BreakExt) (m : Mat) (root : List Nat) : BreakOut :=
+  let ccLabels := ext.labelsNoLoop false
+  let startNodes := root ++ firstNodes ccLabels
+  match breakStarts fuel startNodes (noLoopRows m) with
+  | none => .fuel
+  | some a => .rows a
+
+/-- `out_degree = len(adjacency[root].indices)` (IndexError for a root outside the matrix), refused when 0 -/
+def checkRoot (m : Mat) (root : List Nat) : Except PyErr Unit :=
+  if !(root.all (· < m.nRow)) then .error .indexError
+  else if (root.map fun r => (m.adj r).length).sum == 0 then .error .valueError
+  else .ok ()
+
 /-- `break_cycles(adjacency, root, directed)`; `root = none` is `None`, an `int` root arrives as `[root]` -/
 def breakCyclesWith (fuel : Nat) (ext : BreakExt) (m : Mat) (root : Option (List Nat)) (directed : Option Bool) :
-    Except PyErr BreakOut := do
-  if ← isAcyclic ext.nCC m directed then pure .same
-  else
+    Except PyErr BreakOut :=
+  match isAcyclic ext.nCC m directed with
+  | .error e => .error e
+  | .ok true => .ok .same
+  | .ok false =>
     match root with
-    | none => throw .valueError
+    | none => .error .valueError
     | some root =>
-      if !(root.all (· < m.nRow)) then throw .indexError          -- adjacency[root]
-      let outDegree := (root.map fun r => (m.adj r).length).sum
-      if outDegree == 0 then throw .valueError
-      let directed ← resolveDirected m directed
-      -- break self-loops
-      -- break self-loops: `csr_matrix(tril(adjacency, -1) + triu(adjacency, 1))`, rows come out sorted
-      let a0 : Rows := tab m.nRow fun i => sortNat ((m.adj i).filter (· != i))
-      if directed then
-        let ccLabels := ext.labelsNoLoop true
-        let cycleLabels := (npUnique ccLabels).filter fun v => ccLabels.count v > 1
-        let dist ← match SkNet.Path.getDistances m.nRow m.nRow (fun i j => a0.has i j) { source := some root } with
-          | .error .valueError => throw PyErr.valueError
-          | .error .indexError => throw PyErr.indexError
-          | .error .typeError => throw PyErr.typeError
-          | .ok none => pure none
-          | .ok (some (.single d)) => pure (some d)
-          | .ok (some (.pair _ _)) => pure none
-        match dist with
-        | none => pure .fuel
-        | some d =>
-          match breakLabels ext.setOrder ccLabels d fuel cycleLabels a0 with
-          | none => pure .fuel
-          | some a => pure (.rows a)
-      else
-        let ccLabels := ext.labelsNoLoop false
-        let startNodes := root ++ firstNodes ccLabels
-        match breakStarts fuel startNodes a0 with
-        | none => pure .fuel
-        | some a => pure (.rows a)
+      match checkRoot m root with
+      | .error e => .error e
+      | .ok () =>
+        match resolveDirected m directed with
+        | .error e => .error e
+        | .ok true => breakDirected fuel ext m root
+        | .ok false => .ok (breakUndirected fuel ext m root)
 
 def breakCycles (ext : BreakExt) (m : Mat) (root : Option (List Nat)) (directed : Option Bool) :
     Except PyErr BreakOut :=
